@@ -14,6 +14,11 @@ def chk(pid, text, note, design, technique='deductive verification: ast->VC gene
     }
 
 CHECKS = [
+    chk("C03", "Contracts on the real identifier-level annotation functions: generic metadata (doc, Since/Deprecated/Stability, skip, "
+        "foreign, constructor only on functions, method, set/get-property), block-name selection, and rename-to as a mutually "
+        "consistent shadows/shadowed-by pair without multiple shadowing.",
+        "Trusted: givc, schema incl. ownership regions of dictionaries. Property/signal/field block targeting, virtual invokers, "
+        "copy/free/ref/unref functions and GIR emission are not yet under contract.", "DESIGN.md section 4 C03"),
     chk("C18", "Sequential contracts on the real CacheStore functions: an entry older than its source is never reported valid or "
         "served, an entry that fails to unpickle is discarded and never propagated as an exception, load validates before "
         "unpickling and never writes, store writes only a private temp file, completes it before the single rename into place, and "
